@@ -59,7 +59,7 @@ def enc_eval(e):
                 text = text.replace('{T%d}' % k, ('lbl%d' % k) if (e.get('variant', 0) + k) % 3 == 0 else str(t))
             labs = ''.join(f'lbl{k} = {t}\n' for k, t in enumerate(tg))
             src = f'{defs}{labs}.org {addr - 3}\n.byte 1, 2, 3\n{text}\npad\n'
-            case = {'config': isa, 'files': {'main.asm': src}, 'start': addr, 'end': addr + n - 1}
+            case = {'config': isa, 'files': {'main.asm': src}, 'start': addr, 'end': addr + n - 1, 'fill': 0xA5}
             obs = runner.run_case(case)
             if obs['status'] != 'ok':
                 return {'mismatch': f'"{text}" ({kinds}) at {addr} rejected: {(obs.get("msg") or "")[:150]}', 'case': case}
@@ -69,7 +69,7 @@ def enc_eval(e):
             import yaml
             cfgd = yaml.safe_load(isa)
             cfgd['macros'] = {'wrapm': [{'instructions': ['pad', text, 'pad', 'pad']}]}
-            case = {'config': isagen.dump(cfgd), 'files': {'main.asm': f'{defs}{labs}.org {addr - 1}\nwrapm\npad\n'}, 'start': addr, 'end': addr + n - 1}
+            case = {'config': isagen.dump(cfgd), 'files': {'main.asm': f'{defs}{labs}.org {addr - 1}\nwrapm\npad\n'}, 'start': addr, 'end': addr + n - 1, 'fill': 0xA5}
             obs = runner.run_case(case)
             if obs['status'] != 'ok':
                 return {'mismatch': f'"{text}" ({kinds}) at {addr} as a macro step rejected: {(obs.get("msg") or "")[:150]}', 'case': case}
@@ -90,7 +90,7 @@ def enc_eval(e):
     pad_n = 0
     src2 = '\n'.join(consts) + ('\n' if consts else '') + ('.org 200\n' + twin if twin else '') + f'.org 37\n.byte 1, 2, 3\nhere:\npad\n'
     for (src, start) in ((defs + stmt + '\n', 0), (defs + src2 + f'{stmt_lc}\npad\n.byte here\n', 41)):
-        case = {'config': isa, 'files': {'main.asm': src}, 'start': start, 'end': start + n - 1}
+        case = {'config': isa, 'files': {'main.asm': src}, 'start': start, 'end': start + n - 1, 'fill': 0xA5}
         obs = runner.run_case(case)
         if obs['status'] != 'ok':
             return {'mismatch': f'"{stmt}" ({kinds}) rejected: {(obs.get("msg") or "")[:150]}', 'case': case}
